@@ -371,3 +371,33 @@ Proof.
   - destruct (m_type m =? DBUS_MESSAGE_TYPE_SIGNAL); [|discriminate].
     pose proof (get_recipients_total ns mk (Some c) None m). destruct (get_recipients ns mk (Some c) None m); [discriminate|congruence].
 Qed.
+
+(* ---- RemoveMatch replies (after the F9 fix) ------------------------------------------------------------------ *)
+Theorem remove_single_reply m c text : snd (handle_remove_match m c text) <> RepOkThenNotFound.
+Proof.
+  unfold handle_remove_match. destruct (parse_rule c text); try (simpl; discriminate).
+  destruct (remove_rule_by_value m r); simpl; discriminate.
+Qed.
+
+Theorem remove_not_found m c text :
+  snd (handle_remove_match m c text) = RepNotFound <->
+  exists r, parse_rule c text = POk r /\ (forall x, In x m -> x <> r).
+Proof.
+  unfold handle_remove_match. destruct (parse_rule c text) as [| |r] eqn:Ep.
+  - simpl. split; [discriminate | intros [r [E _]]; discriminate].
+  - simpl. split; [discriminate | intros [r [E _]]; discriminate].
+  - pose proof (remove_rule_by_value_spec m r) as Hs.
+    destruct (remove_rule_by_value m r) as [m'|]; simpl.
+    + split; [discriminate|]. intros [r0 [E Hno]]. inversion E; subst r0.
+      destruct Hs as [l1 [x [l2 [-> [_ [He _]]]]]]. apply rule_equal_eq in He. subst x.
+      exfalso. apply (Hno r); [apply in_or_app; right; now left | reflexivity].
+    + split; [|reflexivity]. intros _. exists r. split; [reflexivity|].
+      intros x Hx E. subst x. specialize (Hs r Hx). rewrite rule_equal_refl in Hs. discriminate.
+Qed.
+
+Theorem remove_failure_keeps m c text :
+  snd (handle_remove_match m c text) <> RepOk -> fst (handle_remove_match m c text) = m.
+Proof.
+  unfold handle_remove_match. destruct (parse_rule c text); try reflexivity.
+  destruct (remove_rule_by_value m r); simpl; [congruence | reflexivity].
+Qed.
